@@ -447,6 +447,7 @@ func c20R3(p *engine.Prog, r *engine.Report) {
 				continue
 			}
 			fns = append(fns, f)
+			r.Fn(engine.FuncName(f))
 		}
 	}
 	track := func(id string) bool {
